@@ -13,6 +13,7 @@ import AmrK.PointModel
 import AmrK.MenuR
 import AmrK.PathsDefaults
 import AmrK.ChunksCover
+import AmrK.CellHCodec
 /-! `amrk-driver`: one JSON object per line in, one JSON object per line out.
     Executable definitions of the model only (no Mathlib behind any import). -/
 open Lean
@@ -171,6 +172,18 @@ def opChunks (j : Json) : Except String Json := do
   return Json.mkObj [("nfiles", toJson nfiles),
     ("chunks", toJson (Chunks.written n (max (Chunks.cdiv n nfiles) 1) (nfiles + 1)))]
 
+/-! ### level header renderer -/
+def opRenderCellH (j : Json) : Except String Json := do
+  let nf ← (← j.getObjVal? "nfields").getNat?
+  let rs ← (← j.getObjVal? "rows").getArr?
+  let rows ← rs.toList.mapM fun r => do
+    let lo ← (← (← r.getObjVal? "lo").getArr?).toList.mapM (·.getInt?)
+    let hi ← (← (← r.getObjVal? "hi").getArr?).toList.mapM (·.getInt?)
+    let file ← (← r.getObjVal? "file").getStr?
+    let off ← (← r.getObjVal? "offset").getNat?
+    return ({ lo, hi, file := Py.ofString file, offset := off } : Taste.BoxRow)
+  return Json.mkObj [("text", toJson (str (Taste.renderCellH nf rows)))]
+
 /-! ### mandoline column -/
 open Column in
 def cfgOfJson (j : Json) : Except String Cfg := do
@@ -314,6 +327,7 @@ partial def loop (h : IO.FS.Stream) (out : IO.FS.Stream) (files : Std.HashMap St
         | "point" => opPoint j
         | "menu_table" => opMenuTable j
         | "paths" => opPaths j
+        | "render_cellh" => opRenderCellH j
         | "chunks" => opChunks j
         | "taste_plt" => opTastePlt files j
         | "column" => opColumn j
